@@ -166,6 +166,8 @@ def verdict(prop, tier, seed, recs, crashes, total, bt, t0, conf):
             hits[k] = hits.get(k, 0) + v
     samples = [x for s in stats for x in (s.get("samples") or [])][:3]
     viols = [x for x in recs if x.get("kind") == "violation"]
+    if not samples:
+        samples = [{"case": v.get("case"), "params": v.get("params"), "violating": True} for v in viols[:2]] or [{"note": "no trial completed"}]
     mine = [v for v in viols if v.get("property") == prop]
     other = [v for v in viols if v.get("property") != prop]
     hpanics = [x for x in recs if x.get("kind") == "harness_panic"]
